@@ -100,9 +100,17 @@ def _build(case, order="low", rot_first=True, inverse="quick"):
         se.setRotationPrecipitate(_rot(q))
     if case.get("rotP_hist"):
         se.setRotationPrecipitate(_rot(case["rotP"]) if case.get("rotP") else np.eye(3))
+    # eigenstrains set earlier on the same object and then replaced (the last one set counts, whatever its form)
+    for spec in case.get("eig_hist") or []:
+        se.setEigenstrain(_eig(spec))
     se.setEigenstrain(_eig(case["eig"]))
     if sapi[0] != "ctor" and sapi[1] != "early":
         select(se)
+    if case.get("bystander"):
+        # a second, unrelated object configured afterwards must not reach into this one
+        other = StrainEnergy("ellipsoid")
+        other.setElasticTensor(_stiff(case["cM"]))
+        other.setEigenstrain(_eig(case["bystander"]))
     return se
 
 
@@ -172,6 +180,11 @@ def check_quadratic(case):
         out.label("shape_via_" + case["shape_api"][0] + "_" + case["shape_api"][1])
         if not math.isclose(Eb, E, rel_tol=1e-9, abs_tol=1e-12 * scale):
             out.fail("entry_point_matters", "Eshelby description selected by %r: energy %r, through the constructor argument: %r" % (case["shape_api"], E, Eb), what="shape")
+    if case.get("eig_hist") or case.get("bystander"):
+        Ee = float(_build(dict(case, eig_hist=None, bystander=None)).compute(r))
+        out.label("eigenstrain_replaced" if case.get("eig_hist") else "bystander_object")
+        if not math.isclose(Ee, E, rel_tol=1e-9, abs_tol=1e-12 * scale):
+            out.fail("setter_order_matters", "eigenstrain(s) %r set before the final one / on another object %r: energy %r; same final configuration without them: %r" % (case.get("eig_hist"), case.get("bystander"), E, Ee), what="eigenstrain_history")
     if case.get("rot_hist") or case.get("rotP_hist"):
         Eh = float(_build(dict(case, rot_hist=None, rotP_hist=None)).compute(r))
         out.label("rotation_replaced" + ("_by_identity" if (case.get("rot_hist") and not case.get("rot")) or (case.get("rotP_hist") and not case.get("rotP")) else ""))
@@ -464,6 +477,10 @@ def _quad_case(draw):
         case["rotP"] = [draw(st.floats(-1, 1)) for _ in range(3)] + [draw(st.floats(0.1, 1))]      # the precipitate's own rotation
     if draw(st.booleans()):
         case["api"] = "named"
+    if draw(st.integers(0, 4)) == 4:
+        case["eig_hist"] = [draw(_eigs()) for _ in range(draw(st.integers(1, 2)))]
+    if draw(st.integers(0, 4)) == 4:
+        case["bystander"] = draw(_eigs())
     if draw(st.integers(0, 3)) == 3:
         case["rot_hist"] = [[draw(st.floats(-1, 1)) for _ in range(3)] + [draw(st.floats(0.1, 1))] for _ in range(draw(st.integers(1, 2)))]
     if case["cP"] is not None and draw(st.integers(0, 5)) == 5:
